@@ -13,6 +13,7 @@ import (
 	"os"
 	"path/filepath"
 	"reflect"
+	"runtime"
 	"sort"
 	"strings"
 
@@ -297,7 +298,11 @@ type c17Case struct {
 	ErrIsOurs bool   `json:"err_is_ours"`
 	Nodes     int    `json:"nodes"`
 	Distinct  int    `json:"distinct_ids"`
-	tree      *c17Tree
+	// the same walk while other walks are under way: started from inside the callback (every node handed over is walked
+	// again before the callback returns), and on another goroutine; "" = the same sequence as the walk alone
+	Reentrant  string `json:"reentrant,omitempty"`
+	Concurrent string `json:"concurrent,omitempty"`
+	tree       *c17Tree
 }
 
 var errStop = errors.New("stop here")
@@ -326,6 +331,73 @@ func c17Walk(c *c17Case, stmt anko.Stmt, ids map[interface{}]int, rnd *Rand) {
 	})
 	if werr != nil {
 		c.Err = werr.Error()
+	}
+	sameSeq := func(got []int, err error) string {
+		if err != nil {
+			return "error " + err.Error()
+		}
+		if len(got) != len(c.Seq) {
+			return fmt.Sprintf("%d nodes presented instead of %d: %v", len(got), len(c.Seq), got)
+		}
+		for i := range got {
+			if got[i] != c.Seq[i] {
+				return fmt.Sprintf("position %d presents node %d instead of %d: %v", i, got[i], c.Seq[i], got)
+			}
+		}
+		return ""
+	}
+	record := func(dst *[]int) func(x interface{}) error {
+		return func(x interface{}) error {
+			if id, ok := ids[x]; ok {
+				*dst = append(*dst, id)
+			} else {
+				*dst = append(*dst, -1)
+			}
+			return nil
+		}
+	}
+	if werr == nil && len(c.Seq) > 0 && len(c.Seq) <= 400 {
+		var outer []int
+		rec := record(&outer)
+		rerr := astutil.Walk(stmt, func(x interface{}) error {
+			rec(x)
+			// walk what was handed over once more before returning (a callback that inspects a subtree with Walk)
+			switch n := x.(type) {
+			case anko.Stmt:
+				astutil.Walk(n, func(interface{}) error { return nil })
+			case anko.Expr:
+				astutil.Walk(&anko.ExprStmt{Expr: n}, func(interface{}) error { return nil })
+			}
+			return nil
+		})
+		c.Reentrant = sameSeq(outer, rerr)
+		// two more walks of the same tree on other goroutines while this one runs
+		stop := make(chan struct{})
+		done := make(chan struct{}, 2)
+		for g := 0; g < 2; g++ {
+			go func() {
+				defer func() { done <- struct{}{} }()
+				for {
+					select {
+					case <-stop:
+						return
+					default:
+					}
+					astutil.Walk(stmt, func(interface{}) error { runtime.Gosched(); return nil })
+				}
+			}()
+		}
+		worst := ""
+		for round := 0; round < 4 && worst == ""; round++ {
+			var mine []int
+			rec2 := record(&mine)
+			cerr := astutil.Walk(stmt, func(x interface{}) error { rec2(x); runtime.Gosched(); return nil })
+			worst = sameSeq(mine, cerr)
+		}
+		close(stop)
+		<-done
+		<-done
+		c.Concurrent = worst
 	}
 	if len(c.Seq) > 0 {
 		c.FailAt = rnd.Intn(len(c.Seq))
